@@ -59,6 +59,13 @@ pub open spec fn ios_concat(s: Seq<IoSlice<'_>>) -> Seq<u8> decreases s.len() {
 pub uninterp spec fn emit_ok(id: int, b: Seq<u8>) -> bool;       // C03: the bytes are the specified reply
 pub uninterp spec fn may_reply(id: int) -> bool;                 // C01: a reply is allowed at all (never for FORGET / BATCH_FORGET)
 pub uninterp spec fn uniq(id: int) -> u64;                       // the request's `unique`
+pub uninterp spec fn is_notify(id: int) -> bool;                 // the channel carries a server-initiated notification, not a reply
+// "notification messages carry the given arguments with a length equal to their size": unique 0, error = the notify code
+#[verifier::opaque]
+pub open spec fn notify_frame_ok(b: Seq<u8>) -> bool {
+    b.len() >= 16 && ({ let h = <OutHeader as ByteValued>::sdecode(b.subrange(0, 16)); h.len as nat == b.len() && h.unique == 0 && h.error > 0 })
+}
+pub open spec fn wire_ok(id: int, b: Seq<u8>) -> bool { if is_notify(id) { notify_frame_ok(b) } else { frame_ok(uniq(id), b) } }
 // C01: "one complete message (length field equals the bytes emitted, unique equals the request's, error is zero or a negated errno)"
 #[verifier::opaque]
 pub open spec fn frame_ok(u: u64, b: Seq<u8>) -> bool {
@@ -75,7 +82,10 @@ pub struct Writer<'a, S> {
 }
 impl<'a, S: BitmapSlice> Writer<'a, S> {
     pub open spec fn fresh(&self) -> bool {
-        self.primary@ && !self.buffered@ && self.buf@.len() == 0 && self.emitted@.len() == 0 && self.cap@ <= MAX_REPLY_CAP
+        self.primary@ && !self.buffered@ && self.buf@.len() == 0 && self.emitted@.len() == 0 && self.cap@ <= MAX_REPLY_CAP && !is_notify(self.id@)
+    }
+    pub open spec fn fresh_notify(&self) -> bool {
+        self.primary@ && !self.buffered@ && self.buf@.len() == 0 && self.emitted@.len() == 0 && self.cap@ <= MAX_REPLY_CAP && is_notify(self.id@)
     }
     pub open spec fn frame_same(&self, o: &Self) -> bool {
         self.id@ == o.id@ && self.cap@ == o.cap@ && self.buffered@ == o.buffered@ && self.primary@ == o.primary@
@@ -95,7 +105,7 @@ impl<'a, S: BitmapSlice> Writer<'a, S> {
             old(self).buffered@ || old(self).buf@.len() == 0, // [assert]  the assert! in FuseDevWriter::check_available_space
             !old(self).buffered@ && data@.len() <= old(self).cap@ ==> old(self).emit_pre_once(), // [once]
             !old(self).buffered@ && data@.len() <= old(self).cap@ ==> may_reply(old(self).id@), // [noreply]
-            !old(self).buffered@ && data@.len() <= old(self).cap@ ==> frame_ok(uniq(old(self).id@), data@), // [frame]
+            !old(self).buffered@ && data@.len() <= old(self).cap@ ==> wire_ok(old(self).id@, data@), // [frame]
             !old(self).buffered@ && data@.len() <= old(self).cap@ ==> emit_ok(old(self).id@, data@), // [emit]
         ensures
             final(self).frame_same(old(self)),
@@ -113,7 +123,7 @@ impl<'a, S: BitmapSlice> Writer<'a, S> {
             data@.len() > 0 ==> old(self).buffered@ || old(self).buf@.len() == 0, // [assert]
             data@.len() > 0 && !old(self).buffered@ && data@.len() <= old(self).cap@ ==> old(self).emit_pre_once(), // [once]
             data@.len() > 0 && !old(self).buffered@ && data@.len() <= old(self).cap@ ==> may_reply(old(self).id@), // [noreply]
-            data@.len() > 0 && !old(self).buffered@ && data@.len() <= old(self).cap@ ==> frame_ok(uniq(old(self).id@), data@), // [frame]
+            data@.len() > 0 && !old(self).buffered@ && data@.len() <= old(self).cap@ ==> wire_ok(old(self).id@, data@), // [frame]
             data@.len() > 0 && !old(self).buffered@ && data@.len() <= old(self).cap@ ==> emit_ok(old(self).id@, data@), // [emit]
         ensures
             final(self).frame_same(old(self)),
@@ -125,13 +135,26 @@ impl<'a, S: BitmapSlice> Writer<'a, S> {
             old(self).buffered@ && old(self).buf@.len() + data@.len() <= old(self).cap@ ==> r is Ok,
     { unimplemented!() }
 
+    // write_obj(val) = write_all(val.as_slice())  (src/transport/fusedev/mod.rs)
+    #[verifier::external_body]
+    pub fn write_obj<T: ByteValued>(&mut self, val: T) -> (r: io::Result<()>)
+        requires
+            old(self).buffered@, // [assert] (only used on split-off, buffered writers)
+        ensures
+            final(self).frame_same(old(self)), final(self).emitted@ == old(self).emitted@,
+            match r {
+                Ok(_) => old(self).buf@.len() + T::ssize() <= old(self).cap@ && final(self).buf@ == old(self).buf@ + val.sbytes(),
+                Err(_) => final(self).buf@ == old(self).buf@,
+            },
+    { unimplemented!() }
+
     #[verifier::external_body]
     pub fn write_vectored(&mut self, bufs: &[IoSlice<'_>]) -> (r: io::Result<usize>)
         requires
             old(self).buffered@ || old(self).buf@.len() == 0, // [assert]
             !old(self).buffered@ && bufs@.len() > 0 && ios_concat(bufs@).len() <= old(self).cap@ ==> old(self).emit_pre_once(), // [once]
             !old(self).buffered@ && bufs@.len() > 0 && ios_concat(bufs@).len() <= old(self).cap@ ==> may_reply(old(self).id@), // [noreply]
-            !old(self).buffered@ && bufs@.len() > 0 && ios_concat(bufs@).len() <= old(self).cap@ ==> frame_ok(uniq(old(self).id@), ios_concat(bufs@)), // [frame]
+            !old(self).buffered@ && bufs@.len() > 0 && ios_concat(bufs@).len() <= old(self).cap@ ==> wire_ok(old(self).id@, ios_concat(bufs@)), // [frame]
             !old(self).buffered@ && bufs@.len() > 0 && ios_concat(bufs@).len() <= old(self).cap@ ==> emit_ok(old(self).id@, ios_concat(bufs@)), // [emit]
         ensures
             final(self).frame_same(old(self)),
@@ -147,11 +170,14 @@ impl<'a, S: BitmapSlice> Writer<'a, S> {
     #[verifier::external_body]
     pub fn split_at(&mut self, offset: usize) -> (r: transport::Result<Writer<'a, S>>)
         ensures
-            final(self).id@ == old(self).id@ && final(self).primary@ == old(self).primary@ && final(self).emitted@ == old(self).emitted@,
+            final(self).id@ == old(self).id@ && final(self).emitted@ == old(self).emitted@,
+            r is Err ==> final(self).primary@ == old(self).primary@,
+            // a split at 0 leaves `self` without room: the returned writer (the whole buffer) is then the channel
+            r is Ok ==> final(self).primary@ == (old(self).primary@ && offset != 0) && r->Ok_0.primary@ == (old(self).primary@ && offset == 0),
             match r {
                 Ok(w) => offset <= old(self).cap@ && final(self).cap@ == offset && final(self).buffered@
                     && final(self).buf@ == (if old(self).buf@.len() > offset { old(self).buf@.subrange(0, offset as int) } else { old(self).buf@ })
-                    && w.id@ == old(self).id@ && !w.primary@ && w.buffered@ && w.emitted@.len() == 0 && w.cap@ == old(self).cap@ - offset
+                    && w.id@ == old(self).id@ && w.buffered@ && w.emitted@.len() == 0 && w.cap@ == old(self).cap@ - offset
                     && w.buf@ == (if old(self).buf@.len() > offset { old(self).buf@.subrange(offset as int, old(self).buf@.len() as int) } else { Seq::<u8>::empty() }),
                 Err(_) => offset > old(self).cap@ && final(self).unchanged(old(self)),
             },
@@ -163,7 +189,7 @@ impl<'a, S: BitmapSlice> Writer<'a, S> {
         requires
             old(self).buffered@ && commit_bytes(old(self), other).len() > 0 ==> old(self).emit_pre_once(), // [once]
             old(self).buffered@ && commit_bytes(old(self), other).len() > 0 ==> may_reply(old(self).id@), // [noreply]
-            old(self).buffered@ && commit_bytes(old(self), other).len() > 0 ==> frame_ok(uniq(old(self).id@), commit_bytes(old(self), other)), // [frame]
+            old(self).buffered@ && commit_bytes(old(self), other).len() > 0 ==> wire_ok(old(self).id@, commit_bytes(old(self), other)), // [frame]
             old(self).buffered@ && commit_bytes(old(self), other).len() > 0 ==> emit_ok(old(self).id@, commit_bytes(old(self), other)), // [emit]
         ensures
             final(self).frame_same(old(self)), final(self).buf@ == old(self).buf@,
@@ -178,6 +204,7 @@ pub open spec fn commit_bytes<'a, S>(w: &Writer<'a, S>, other: Option<&Writer<'a
     w.buf@ + (match other { Some(o) => o.buf@, None => Seq::<u8>::empty() })
 }
 
+pub type FuseDevWriter<'a, S> = Writer<'a, S>;
 pub struct Reader<'a, S> { pub rem: Ghost<Seq<u8>>, pub p: PhantomData<&'a S> }
 impl<'a, S: BitmapSlice> Reader<'a, S> {
     #[verifier::external_body]
